@@ -20,7 +20,7 @@ def pair_eq(a, b):
 class C14(BaseCheck):
   ID = 'C14'
   RULE = ('case = one public Thrift client (Thrift.NewClient) on the simulated network, one '
-          'generated (interface, method, arguments) and its expected outcome (value / declared '
+          'generated (interface, method, arguments passed by position, by keyword or both) and its expected outcome (value / declared '
           'exception / application exception / void); the call is repeated under every 1-cut and '
           '(quick: 30 sampled, thorough: all) 2-cut splits of the reply byte stream when the reply is '
           '<= 64 bytes, random k-cuts otherwise, each piece delivered with an inter-chunk delay so the '
@@ -36,7 +36,7 @@ class C14(BaseCheck):
   REQUIRED_ANCHORS = ANCHORS
   REQUIRED_CLASSES = ('outcome:value', 'outcome:declared-exc', 'outcome:declared-exc-not-first', 'outcome:app-exc', 'outcome:void',
                       'iface:hello', 'iface:verif', 'iface:ext', 'iface:leaf', 'chunk:1cut', 'chunk:2cut', 'chunk:kcut',
-                      'text:nonascii', 'text:empty', 'concurrent', 'two-services', 'short-sends', 'alternating-outcomes',
+                      'text:nonascii', 'text:empty', 'concurrent', 'two-services', 'short-sends', 'alternating-outcomes', 'call:positional-and-keyword', 'call:keyword-only',
                       'text:over-a-mebibyte')
   ASSUMPTIONS = ('interfaces: the repository\'s hello.Hello plus a hand-written module in the shape the '
                  'Thrift compiler emits (py:dynamic); no Thrift compiler is available offline',)
@@ -94,6 +94,11 @@ class C14(BaseCheck):
       return iface, 'echo', (s,), {}, ('app', 'app:' + s)
     if k == 'add':
       a, b = rng.randint(-2**31, 2**31 - 1), rng.randint(-2**62, 2**62)
+      style = rng.choice(['pos', 'pos', 'mixed', 'kw'])
+      if style == 'mixed':       # first argument by position, the second by keyword
+        return iface, 'add', (a,), {'b': b}, ('value', a + b)
+      if style == 'kw':
+        return iface, 'add', (), {'a': a, 'b': b}, ('value', a + b)
       return iface, 'add', (a, b), {}, ('value', a + b)
     if k == 'swap':
       p = ttypes.Pair(gen_text(rng), rng.randint(-99, 99),
@@ -104,6 +109,8 @@ class C14(BaseCheck):
       return iface, 'swap', (p,), {}, ('value', want)
     if k == 'flag':
       b = rng.random() < 0.5
+      if rng.random() < 0.3:
+        return iface, 'flag', (b,), {'d': rng.random() * 1e9}, ('value', not b)
       return iface, 'flag', (b, rng.random() * 1e9), {}, ('value', not b)
     if k == 'ping':
       return iface, 'ping', (), {}, ('void',)
@@ -144,6 +151,8 @@ class C14(BaseCheck):
     classes.add('iface:' + iface_kind)
     classes.add('outcome:' + {'value': 'value', 'declared': 'declared-exc', 'app': 'app-exc', 'void': 'void',
                               'declared-other': 'declared-exc-not-first', 'declared-third': 'declared-exc-not-first'}[expected[0]])
+    if kwargs:
+      classes.add('call:positional-and-keyword' if args else 'call:keyword-only')
     for a in list(args) + list(kwargs.values()):
       if isinstance(a, str):
         if a == '':
